@@ -2,26 +2,29 @@
 """C11 — var resolves paths through objects, arrays and strings; absent means default.
 
 Structural clauses (necessary conditions; the path arithmetic itself is value-level):
-  K1  key typing: both KeyType conversions (from Value and from &Value) have the
-      same matrix — Null → Null key, String → String key carrying the payload,
-      Number → integer key through as_i64 or Err, Bool/Array/Object → Err;
-  K2  one negative-index helper: every positional access into data arrays and
-      strings inside the lookup goes through the one helper (slice, i64) → Option;
-      strings are turned into Vec<char> by chars().collect() before it (never
-      bytes / byte length / byte offsets anywhere in the lookup's reach); the
-      helper takes the length of the very slice it indexes, subtracts with
-      checked_sub on the negative branch and reads with slice::get;
-  K3  absent is None, present is Some — even for null: var selects the default
-      only through unwrap_or / unwrap_or_else / the None edge of the lookup
-      result and never inspects the found value; the default is null or a clone
-      of operand 1 (guarded by the operand count); the operand-less form, the null
+  K1  key typing: every conversion Value → key (found by signature; helpers of the conversions are read through),
+      as a table JSON kind → outcomes read off its composed decision cases — Null → Null key, String → String key
+      carrying the string's own text, Number → integer key that is the payload of as_i64 or Err, Bool/Array/Object →
+      Err; all conversions agree;
+  K2  the index helper, by role (a (sequence, i64) → Option function in the lookup's reach that performs a positional
+      access itself — slice, Vec or any DoubleEndedIterator): outside it no positional access, nowhere a byte-based
+      string operation; at its call sites the text of a data string arrives only as its chars() (provenance), an
+      array as its own payload; its decision cases form the position table  idx >= 0 → |idx| from the front,
+      idx < 0 → |idx| from the back (len − |idx| with a checked subtraction on the length of the sequence read,
+      nth_back(|idx| − 1), rev().nth(|idx| − 1)) or nothing — a clamped subtraction, a foreign length, another sign
+      test are read and wrong, arithmetic the reader does not know is left unread;
+  K3  absent is None, present is Some — even for null: var's decision cases return the found value, and only when
+      the lookup (found by role: the Option<Value> function var calls with the data and the key) answers None the
+      default — null or a clone of operand 1; var never inspects the found value; the operand-less form, the null
       key and the empty string return a clone of the entire data;
   K4  the default is used as a value, never re-interpreted (C04's S1 analysis);
-  K5  frame: per path segment the lookup reads an object only by Map::get with
-      that segment, an array/string only through the index helper with the
-      segment parsed as i64; anything else is None; no iteration over the data's
-      map entries; the dotted-path result is exactly the fold over the split
-      segments (no fallback lookup afterwards), split by the escape-aware splitter;
+  K5  frame: the walker (by role: the function in the lookup's reach that calls the splitter) answers the entire
+      data, nothing, or the accumulation over the splitter's segments — a fold or a loop with a carried value of any
+      type — seeded with the data, left early only with 'absent', nothing looked up after it; every step, read as
+      decision cases of the step function / path summaries of one iteration (helpers read through), is exactly one
+      access to the current value with the segment — Map::get(segment) on its object payload, the index helper on
+      its array payload / the chars() of its string payload with the segment parsed as i64 — or nothing; no
+      Value indexing (null for absent), no iteration over map entries;
   K6  the splitter is the transducer the property states (rules/splitter.py): a
       one-flag loop over str::chars of the whole key, split at '.', in which —
       on every path through one iteration — an escaped character is pushed as it
@@ -157,16 +160,62 @@ def payload_source(e):
     """The Option/Result-valued expression whose Some/Ok payload `e` (a payload placeholder or a `(x as Some).0`
     projection) is, looking through the plumbing that hands a payload on unchanged (`ok_or_else`, `ok`, `?`, …)."""
     x = strip_refs(e)
+    proj = False
     for _ in range(12):
         if x[0] == "payload":
-            x = strip_refs(x[2])
+            x, proj = strip_refs(x[2]), True
         elif x[0] == "field" and x[2] == 0 and x[1][0] == "downcast" and x[1][2] in ("Some", "Ok", "Continue"):
-            x = strip_refs(x[1][1])
+            x, proj = strip_refs(x[1][1]), True
         elif x[0] == "call" and x[1] and SAME_PAYLOAD.search(x[1]["path"]) and x[2]:
             x = strip_refs(x[2][0])
+        elif proj and x[0] == "agg" and x[1].get("variant") in ("Some", "Ok") and x[2]:
+            x, proj = strip_refs(x[2][0]), False          # the payload of a constructor that is known: its operand
         else:
             break
     return x
+
+
+def _subst(e, old, new):
+    if e is old:
+        return new
+    if not isinstance(e, tuple):
+        return e
+    return tuple(_subst(x, old, new) if isinstance(x, tuple) else ([_subst(y, old, new) if isinstance(y, tuple) else y for y in x] if isinstance(x, list) else x) for x in e)
+
+
+def read_through_calls(facts, conds, v, depth=0, skip=()):
+    """[(conds, value)] — `v` with the calls of the crate's own (loop-free) functions inside it replaced by their
+    composed decision cases, parameters bound to the argument expressions (so atoms stay in the caller's terms).  For
+    arithmetic that a maintainer moved into a helper (`slice.get(resolve(len, idx)?)`)."""
+    from . import pathsum
+    if depth > 3:
+        return [(conds, v)]
+    hit = []
+    expr_mentions(v, lambda y: hit.append(y) or False if (y[0] == "call" and y[1] is not None and y[1].get("local") and not _is_ctor(y[1]) and y[1]["key"] not in skip and facts.body(y[1]["key"]) is not None and facts.body(y[1]["key"]).kind == "fn") else False)
+    if not hit:
+        return [(conds, v)]
+    c = hit[0]
+    cb = facts.body(c[1]["key"])
+    if cb.arg_count != len(c[2]):
+        return [(conds, v)]
+    sub = composed_cases(facts, cb, env={i + 1: a for i, a in enumerate(c[2])})
+    if sub is None:
+        return [(conds, v)]
+    asked = conds.get(("variant", pathsum.canon(c)))
+    out = []
+    for c2, v2 in sub:
+        x2 = strip_refs(v2)
+        tag = x2[1].get("variant") if x2[0] == "agg" else ("None" if (x2[0] == "call" and x2[1] and "from_residual" in x2[1]["path"]) else None)
+        if asked in ("Some", "Ok") and tag in ("None", "Err"):
+            continue
+        if asked in ("None", "Err") and tag in ("Some", "Ok"):
+            continue
+        cc = dict(conds)
+        if any(k in cc and cc[k] != val for k, val in c2.items()):
+            continue
+        cc.update(c2)
+        out.extend(read_through_calls(facts, cc, _subst(v, c, v2), depth + 1, skip))
+    return out or [(conds, v)]
 
 
 def _key_outcome(val, conds, key_adt):
@@ -222,13 +271,19 @@ def run(ctx):
         ctx.check(len(helpers) == 1, "K2.one-helper", "one negative-index helper (sequence, i64) → Option (%s)" % cfg, "%d index helpers%s" % (len(helpers), (": " + ", ".join(h.key.split("::", 1)[1] for h in helpers)) if helpers else ""), where=lookup.where(), nontrivial=True)
         helper = helpers[0] if len(helpers) == 1 else None
         lu = Unit(roles, lookup.key, extended=True, stop=[h.key for h in helpers])
-        if helper is not None:
-            IDXP = items[helper.key]["inputs"].index("i64") + 1
-            SEQP = 3 - IDXP
-            sites = lu.calls_to(helper.key)
-            ctx.floor("index helper call sites (%s)" % cfg, len(sites), 1)
+        nsites = 0
+        for hb in helpers:
+            sites = lu.calls_to(hb.key)
+            nsites += len(sites)
             for s in sites:
-                index_site(ctx, s, SEQP, cfg)
+                index_site(ctx, s, 2 - items[hb.key]["inputs"].index("i64"), cfg)
+            for bb in roles.unit(hb.key):        # inside a helper positional access is its business, bytes are not
+                for bi, t in bb.calls():
+                    p = callee_path(t) or ""
+                    if BYTE_OPS.search(p):
+                        ctx.fail("K2.no-bytes", "%s|%s" % (bb.key.split("::", 1)[1], p.rsplit("::", 1)[1]), "byte-based string operation %s in an index helper of the lookup: strings must be indexed by Unicode character" % p, where=bb.where(bi), fn=bb.key)
+        if helpers:
+            ctx.floor("index helper call sites (%s)" % cfg, nsites, 1)
         for s in lu.calls(lambda c: not c["local"]):
             p = callee_path(s.term)
             if BYTE_OPS.search(p):
@@ -238,8 +293,9 @@ def run(ctx):
             if MAP_ITER.search(p):
                 ctx.fail("K5.no-entry-scan", "%s|%s" % (s.body.key.split("::", 1)[1], p.rsplit("::", 1)[1]), "the lookup uses %s: parts of the data not named by the path can influence the result" % p, where=s.where(), fn=s.body.key)
         ctx.ok("K2.scan", "lookup reach scanned for byte operations / direct indexing / entry scans (%d bodies, %s)" % (len(lu.bodies), cfg), nontrivial=True, sample={"bodies": sorted(b.key for b in lu.bodies)})
-        if helper is not None:
-            helper_table(ctx, facts, helper, SEQP, IDXP, cfg)
+        for hb in helpers:
+            ip = items[hb.key]["inputs"].index("i64") + 1
+            helper_table(ctx, facts, hb, 3 - ip, ip, cfg if len(helpers) == 1 else "%s, %s" % (hb.key.split("::", 1)[1], cfg))
 
         # ---------------- K3 / K4 on var
         vb, ve = roles.fn_of("var")
@@ -347,10 +403,11 @@ def run(ctx):
             walkers = [b for b in lu.bodies if b.kind == "fn" and b.key != lookup.key and items.get(b.key, {}).get("output") == "std::option::Option<serde_json::Value>"]
         ctx.check(len(walkers) == 1, "K5.walker", "one dotted-path walker (%s)" % cfg, "%d candidates" % len(walkers), where=lookup.where())
         if len(walkers) == 1:
-            walk(ctx, facts, roles, walkers[0], helper, cfg)
+            walk(ctx, facts, roles, walkers[0], helpers, cfg)
 
 
-def walk(ctx, facts, roles, w, helper, cfg):
+def walk(ctx, facts, roles, w, helpers, cfg):
+    helper = helpers[0] if helpers else None
     """K5 on the walker: its answer is the entire data (empty key), nothing, or the accumulation over the splitter's
     segments — a fold, or a loop with a carried value — and nothing after it; every step is read as a table."""
     items = facts.items
@@ -369,9 +426,13 @@ def walk(ctx, facts, roles, w, helper, cfg):
         else:
             kinds.append("other:" + show_expr(c)[:60])
     if fold is None:
-        if walker_loop_step(ctx, facts, roles, w, helper, cfg):
+        if walker_loop_step(ctx, facts, roles, w, helpers, cfg):
             return
-        if walker_loop_form(ctx, facts, roles, w, helper, cfg):
+        # neither the fold itself nor a loop over the segments: if a fold's answer is worked on before it is returned
+        # that is read (and wrong); any other form is not read
+        post = [c for c in cands if expr_mentions(c, lambda x: x[0] == "call" and x[1] is not None and re.search(r"Iterator(>)?::(fold|try_fold)$", x[1]["path"]) is not None)]
+        if not post:
+            ctx.unread("K5.walk-is-the-result", "walker (%s)" % cfg, "the walker answers %s — neither a fold nor a loop over the splitter's segments that the rule reads" % kinds, where=w.where(), fn=w.key)
             return
     ctx.check(sorted(kinds) == ["None", "Some(data)", "fold"], "K5.walk-is-the-result", "the walker returns the entire data (empty key), None (scalar data) or exactly the fold over the segments (%s)" % cfg,
               "the walker's results are %s — a lookup that failed along the path must stay absent (no fallback)" % kinds, where=w.where(), fn=w.key, nontrivial=True, sample={"results": kinds})
@@ -384,7 +445,7 @@ def walk(ctx, facts, roles, w, helper, cfg):
         ctx.check(seed[0] == "agg" and seed[1].get("variant") == "Some", "K5.seed", "the walk starts at the entire data (%s)" % cfg, "fold seed %s" % show_expr(seed)[:80], where=w.where(), fn=w.key)
         clos = strip_refs(fold[2][2])
         if clos[0] == "agg" and clos[1].get("agg") == "Closure":
-            step_table(ctx, facts, facts.body(clos[1]["closure"]), ("arg", 2), ("arg", 3), helper, cfg)
+            step_table(ctx, facts, facts.body(clos[1]["closure"]), ("arg", 2), ("arg", 3), helpers, cfg)
         else:
             ctx.unread("K5.step", "path step (%s)" % cfg, "the fold's step is %s, not a closure the rule can read" % show_expr(clos)[:80], where=w.where(), fn=w.key)
 
@@ -392,97 +453,156 @@ def walk(ctx, facts, roles, w, helper, cfg):
 MAP_GET = re.compile(r"^serde_json::Map::<.*>::get$")
 
 
-def step_table(ctx, facts, sb, CUR, SEG, helper, cfg):
-    """K5 — one step of the walk as a decision table (composed decision cases of the step function, helpers read
-    through).  Every case either yields nothing, or yields what exactly one access found:
+VALUE_INDEX = re.compile(r"Index<.*> for serde_json::Value>::index$|^<serde_json::Value as std::ops::Index<.*>>::index$|^serde_json::Value::(pointer|pointer_mut)$")
+
+
+class StepJudge:
+    """K5 — one step of the walk as a table.  Every case either yields nothing, or yields what exactly one access found:
         Map::get(object payload of the current value, the segment)
-        index helper(array payload of the current value,            the segment parsed as i64)
-        index helper(chars() of the string payload of the current value, the segment parsed as i64)
-        index helper(a sequence built from a character,              the segment parsed as i64)
+        index helper(array payload of the current value,                  the segment parsed as i64)
+        index helper(chars() of the string payload of the current value,  the segment parsed as i64)
+        index helper(a sequence built from a character the walk stands on, the segment parsed as i64)
     and all of the first three occur.  The kind of the current value is carried by the payload projection itself."""
-    key = "path step (%s)" % cfg
-    cases = composed_cases(facts, sb)
-    if cases is None:
-        ctx.unread("K5.step", key, "the step has loops or too many paths to summarise", where=sb.where(), fn=sb.key)
-        return
-    hk = helper.key if helper is not None else None
-    hins = facts.items[hk]["inputs"] if hk else []
-    idxp = hins.index("i64") if hk else 1
-    bad, unread, classes = [], [], {}
 
-    def is_access(y):
-        return y[0] == "call" and y[1] is not None and (MAP_GET.search(y[1]["path"]) is not None or (hk is not None and y[1].get("key") == hk))
+    def __init__(self, facts, is_cur, is_seg, helpers):
+        self.facts, self.is_cur, self.is_seg = facts, is_cur, is_seg
+        self.hidx = {h.key: facts.items[h.key]["inputs"].index("i64") for h in helpers}
+        self.bad, self.unread, self.classes, self.n = [], [], {}, 0
 
-    def from_cur(e, variant):
-        """e reads the `variant` payload of (something that is) the current value."""
+    def is_access(self, y):
+        return y[0] == "call" and y[1] is not None and (MAP_GET.search(y[1]["path"]) is not None or y[1].get("key") in self.hidx)
+
+    def from_cur(self, e, variant):
         hit = []
         expr_mentions(e, lambda y: hit.append(y) or False if (y[0] == "downcast" and y[2] == variant) else False)
-        return bool(hit) and all(expr_mentions(h[1], lambda z: z == CUR) for h in hit)
+        return bool(hit) and all(expr_mentions(h[1], self.is_cur) for h in hit)
 
-    def seg_parsed(e):
+    def plain_seg(self, e):
+        """e is the segment itself (through references / as_str / clone), nothing computed from it."""
+        found = []
+
+        def walk(x, d=0):
+            if not isinstance(x, tuple) or d > 60:
+                return True
+            if self.is_seg(x):
+                found.append(x)
+                return True
+            if x[0] == "call" and (x[1] is None or not STR_PASS.search(x[1]["path"])):
+                return False
+            for y in x[1:]:
+                if isinstance(y, tuple) and not walk(y, d + 1):
+                    return False
+                if isinstance(y, list) and not all(walk(z, d + 1) for z in y if isinstance(z, tuple)):
+                    return False
+            return True
+        return walk(e) and bool(found)
+
+    def seg_parsed(self, e):
         x = _num_peel(e)
         while x[0] == "call" and x[1] and re.search(r"Result::<.*>::(ok|unwrap_or\w*)$", x[1]["path"]):
             x = _num_peel(x[2][0])
-        return x[0] == "call" and x[1] is not None and x[1]["path"] == "core::str::<impl str>::parse" and "i64" in (x[1].get("full") or "") and expr_mentions(x[2][0], lambda z: z == SEG) and not expr_mentions(x[2][0], lambda z: z[0] == "call" and z[1] is not None and not STR_PASS.search(z[1]["path"]))
+        return x[0] == "call" and x[1] is not None and x[1]["path"] == "core::str::<impl str>::parse" and "i64" in (x[1].get("full") or "") and self.plain_seg(x[2][0])
 
-    for conds, v in cases:
+    def case(self, v, depth=0):
+        self.n += 1
         v = strip_refs(v)
         if (v[0] == "call" and v[1] and "from_residual" in v[1]["path"]) or (v[0] == "agg" and v[1].get("variant") == "None"):
-            continue
+            return
+        vi = []
+        expr_mentions(v, lambda y: vi.append(y) or False if (y[0] == "call" and y[1] is not None and VALUE_INDEX.search(y[1]["path"])) else False)
+        if vi:
+            self.bad.append("a step reads the current value with %s, which answers null for a key that is not there: an absent step and a present null cannot be told apart" % vi[0][1]["path"])
+            return
         acc = {}
-        expr_mentions(v, lambda y: acc.setdefault(pathsum_canon(y), y) and False if is_access(y) else False)
+        expr_mentions(v, lambda y: acc.setdefault(pathsum_canon(y), y) and False if self.is_access(y) else False)
         if not acc:
-            if expr_mentions(v, lambda y: y[0] == "call" and y[1] is not None and y[1].get("local") and not _is_ctor(y[1])):
-                unread.append("a step yields %s" % show_expr(v)[:90])
+            if _mentions_outside(v, lambda y: y[0] == "call" and y[1] is not None and y[1].get("local") and not _is_ctor(y[1]), self.is_seg):
+                sub = read_through_calls(self.facts, {}, v, skip=tuple(self.hidx)) if depth == 0 else []
+                if len(sub) > 1 or (sub and sub[0][1] is not v):
+                    self.n -= 1
+                    for _, v2 in sub:
+                        self.case(v2, 1)
+                else:
+                    self.unread.append("a step yields %s" % show_expr(v)[:90])
             else:
-                bad.append("a step yields %s without looking anything up in the current value" % show_expr(v)[:80])
-            continue
+                self.bad.append("a step yields %s without looking anything up in the current value" % show_expr(v)[:80])
+            return
         if len(acc) > 1:
-            unread.append("a step combines %d accesses: %s" % (len(acc), show_expr(v)[:80]))
-            continue
+            self.unread.append("a step combines %d accesses: %s" % (len(acc), show_expr(v)[:80]))
+            return
         a = list(acc.values())[0]
+        cl = self.classes
         if MAP_GET.search(a[1]["path"]):
-            if not from_cur(a[2][0], "Object"):
-                bad.append("Map::get is applied to %s, not to the object the walk stands on" % show_expr(strip_refs(a[2][0]))[:60])
-            elif not (expr_mentions(a[2][1], lambda z: z == SEG) and not expr_mentions(a[2][1], lambda z: z[0] == "call" and z[1] is not None and not STR_PASS.search(z[1]["path"]))):
-                bad.append("the object is asked for %s, not for the segment as it is" % show_expr(strip_refs(a[2][1]))[:60])
+            if not self.from_cur(a[2][0], "Object"):
+                self.bad.append("Map::get is applied to %s, not to the object the walk stands on" % show_expr(strip_refs(a[2][0]))[:60])
+            elif not self.plain_seg(a[2][1]):
+                self.bad.append("the object is asked for %s, not for the segment as it is" % show_expr(strip_refs(a[2][1]))[:60])
             else:
-                classes.setdefault("object: Map::get(segment)", 0)
-                classes["object: Map::get(segment)"] += 1
-            continue
+                cl["object: Map::get(segment)"] = cl.get("object: Map::get(segment)", 0) + 1
+            return
+        idxp = self.hidx[a[1]["key"]]
         seq, idx = a[2][1 - idxp], a[2][idxp]
-        if not seg_parsed(idx):
-            bad.append("the index helper is asked for %s, not for the segment parsed as an integer" % show_expr(strip_refs(idx))[:70])
-            continue
+        if not self.seg_parsed(idx):
+            self.bad.append("the index helper is asked for %s, not for the segment parsed as an integer" % show_expr(strip_refs(idx))[:70])
+            return
         has_str = expr_mentions(seq, lambda y: y[0] == "downcast" and y[2] == "String")
         has_arr = expr_mentions(seq, lambda y: y[0] == "downcast" and y[2] == "Array")
         if has_arr and not has_str:
-            if from_cur(seq, "Array"):
-                classes["array: index helper(parse i64)"] = classes.get("array: index helper(parse i64)", 0) + 1
+            if self.from_cur(seq, "Array"):
+                cl["array: index helper(parse i64)"] = cl.get("array: index helper(parse i64)", 0) + 1
             else:
-                bad.append("the index helper reads %s, not the array the walk stands on" % show_expr(strip_refs(seq))[:60])
+                self.bad.append("the index helper reads %s, not the array the walk stands on" % show_expr(strip_refs(seq))[:60])
         elif has_str and not has_arr:
             chars = expr_mentions(seq, lambda y: y[0] == "call" and y[1] is not None and y[1]["path"] == "core::str::<impl str>::chars" and expr_mentions(y, lambda z: z[0] == "downcast" and z[2] == "String"))
-            if not from_cur(seq, "String"):
-                bad.append("the index helper reads %s, not the string the walk stands on" % show_expr(strip_refs(seq))[:60])
+            if not self.from_cur(seq, "String"):
+                self.bad.append("the index helper reads %s, not the string the walk stands on" % show_expr(strip_refs(seq))[:60])
             elif chars:
-                classes["string: index helper(chars, parse i64)"] = classes.get("string: index helper(chars, parse i64)", 0) + 1
+                cl["string: index helper(chars, parse i64)"] = cl.get("string: index helper(chars, parse i64)", 0) + 1
             else:
-                unread.append("a string is indexed as %s" % show_expr(strip_refs(seq))[:70])     # K2.string-by-chars judges the site
-        elif not has_str and not has_arr and expr_mentions(seq, lambda z: z == CUR):
-            classes["character: index helper(parse i64)"] = classes.get("character: index helper(parse i64)", 0) + 1
+                self.unread.append("a string is indexed as %s" % show_expr(strip_refs(seq))[:70])     # K2.string-by-chars judges the site
+        elif not has_str and not has_arr and expr_mentions(seq, self.is_cur):
+            cl["character: index helper(parse i64)"] = cl.get("character: index helper(parse i64)", 0) + 1
         else:
-            unread.append("the index helper reads %s" % show_expr(strip_refs(seq))[:70])
-    want = ["object: Map::get(segment)", "array: index helper(parse i64)", "string: index helper(chars, parse i64)"]
-    if bad:
-        for m in sorted(set(bad))[:4]:
-            ctx.fail("K5.step", "path step|%s" % re.sub(r"[0-9]+", "", m)[:60], m, where=sb.where(), fn=sb.key)
-    elif unread:
-        ctx.unread("K5.step", key, "; ".join(unread[:2]), where=sb.where(), fn=sb.key)
-    else:
-        miss = [x for x in want if x not in classes]
-        ctx.check(not miss, "K5.step", "every step of the walk is one access to the current value with the segment, or nothing (%s)" % cfg, "the step has no case for %s" % miss, where=sb.where(), fn=sb.key, nontrivial=True,
-                  sample={"cases": len(cases), "accesses": classes})
+            self.unread.append("the index helper reads %s" % show_expr(strip_refs(seq))[:70])
+
+    def finish(self, ctx, sb, cfg):
+        key = "path step (%s)" % cfg
+        want = ["object: Map::get(segment)", "array: index helper(parse i64)", "string: index helper(chars, parse i64)"]
+        if self.bad:
+            for m in sorted(set(self.bad))[:4]:
+                ctx.fail("K5.step", "path step|%s" % re.sub(r"[0-9]+", "", m)[:60], m, where=sb.where(), fn=sb.key)
+        elif self.unread:
+            ctx.unread("K5.step", key, "; ".join(self.unread[:2]), where=sb.where(), fn=sb.key)
+        else:
+            miss = [x for x in want if x not in self.classes]
+            ctx.check(not miss, "K5.step", "every step of the walk is one access to the current value with the segment, or nothing (%s)" % cfg, "the step has no case for %s" % miss, where=sb.where(), fn=sb.key, nontrivial=True,
+                      sample={"cases": self.n, "accesses": self.classes})
+
+
+def step_table(ctx, facts, sb, CUR, SEG, helpers, cfg):
+    """K5.step on a step *function* (the fold's closure, a helper called per segment): its composed decision cases."""
+    cases = composed_cases(facts, sb)
+    if cases is None:
+        ctx.unread("K5.step", "path step (%s)" % cfg, "the step has loops or too many paths to summarise", where=sb.where(), fn=sb.key)
+        return
+    j = StepJudge(facts, lambda z: z == CUR, lambda z: z == SEG, helpers)
+    for conds, v in cases:
+        j.case(v)
+    j.finish(ctx, sb, cfg)
+
+
+def _mentions_outside(e, pred, stop):
+    """pred holds for a sub-expression of e that does not lie inside a sub-expression satisfying stop."""
+    if not isinstance(e, tuple) or stop(e):
+        return False
+    if pred(e):
+        return True
+    for x in e[1:]:
+        if isinstance(x, tuple) and _mentions_outside(x, pred, stop):
+            return True
+        if isinstance(x, list) and any(isinstance(y, tuple) and _mentions_outside(y, pred, stop) for y in x):
+            return True
+    return False
 
 
 def pathsum_canon(e):
@@ -490,11 +610,13 @@ def pathsum_canon(e):
     return pathsum.canon(e)
 
 
-def walker_loop_step(ctx, facts, roles, w, helper, cfg):
-    """The walk as a loop whose carried value (of whatever type) is replaced, per segment, by the answer of a step
-    function: `for seg in split(key) { cur = step(cur, seg)?; }`.  True when read and judged."""
+def walker_loop_step(ctx, facts, roles, w, helpers, cfg):
+    """The walk as a loop over the splitter's segments with a carried value of whatever type (an owned Value, a
+    reference into the data, a cursor): `for seg in split(key) { cur = …cur…seg…; }`.  Read off the path summaries of
+    one iteration: where the iteration comes round, the new carried value is a step case; where it leaves the
+    function, it must answer 'absent'.  True when read and judged."""
     from . import panic as PN
-    from . import pathsum
+    from . import pathsum, optnorm
     items = facts.items
     loops = PN.loops_of(w)
     if len(loops) != 1:
@@ -510,30 +632,26 @@ def walker_loop_step(ctx, facts, roles, w, helper, cfg):
     for i, t in enumerate(items.get(w.key, {}).get("inputs", [])):
         if t == "&serde_json::Value":
             DATA = ("arg", i + 1)
-    found = None
+    if DATA is None:
+        return False
+    carried = []
     for l, ds in w.defs().items():
         if w.is_arg(l):
             continue
         inside = [d for d in ds if d[1] in bl and not d[-1]]
         outside = [d for d in ds if d[1] not in bl and not d[-1]]
-        if len(inside) != 1 or len(outside) != 1:
-            continue
-        ex = strip_refs(w._trace_def(inside[0], 0, frozenset([l])))
-        src = payload_source(ex)
-        if src is ex or src[0] != "call" or not src[1] or not src[1].get("local") or _is_ctor(src[1]):
-            continue
-        curp = [i for i, a in enumerate(src[2]) if expr_mentions(a, lambda y: y == ("cycle", l) or (y[0] == "phi" and y[1] == l))]
-        segp = [i for i, a in enumerate(src[2]) if expr_mentions(a, lambda y: y[0] == "call" and y[1] and y[3] == nbi[0])]
-        if len(curp) == 1 and len(segp) == 1 and curp != segp and len(src[2]) == 2:
-            found = (l, outside[0], src, curp[0] + 1, segp[0] + 1)
-    if found is None:
+        if inside and len(outside) == 1 and w.dominates(outside[0][1], h):
+            seed = strip_refs(w._trace_def(outside[0], 0, frozenset()))
+            if expr_mentions(seed, lambda y: y == DATA):
+                carried.append((l, seed, inside))
+    if len(carried) != 1:
         return False
-    cur, seed_def, call, curp, segp = found
-    seed = strip_refs(w._trace_def(seed_def, 0, frozenset()))
-    seed_ok = DATA is not None and expr_mentions(seed, lambda y: y == DATA) and not expr_mentions(seed, lambda y: y[0] == "call" and y[1] is not None and y[1]["path"] != CLONE and not _is_ctor(y[1]))
+    cur, seed, inside = carried[0]
+    hks = {hb.key for hb in helpers}
+    seed_ok = not expr_mentions(seed, lambda y: y[0] == "call" and y[1] is not None and y[1]["path"] != CLONE and not _is_ctor(y[1]))
     ctx.check(seed_ok, "K5.seed", "the walk starts at the entire data (%s)" % cfg, "the walk's current value starts as %s" % show_expr(seed)[:80], where=w.where(), fn=w.key)
-    # every way out of the loop other than the exhaustion of the segments ends in "absent"
-    none_edges = set()
+    # the Some edge of next(): one iteration starts there
+    some_t, none_edges = None, set()
     for sb_ in bl:
         tt = w.blocks[sb_]["term"]
         if tt["k"] == "SwitchInt":
@@ -542,31 +660,39 @@ def walker_loop_step(ctx, facts, roles, w, helper, cfg):
                 r_ = switch_edges_for_variant(w, sb_, "None")
                 if r_:
                     none_edges.add((sb_, r_[0]))
-    early = []
-    for u in sorted(bl):
-        for v in w.succs(u):
-            if v in bl or (u, v) in none_edges or w.blocks[v].get("cleanup"):
-                continue
-            pw = pathsum.Walker(w, start=v, max_paths=300)
-            for p_ in pw.paths:
-                rr = strip_refs(p_.result) if p_.result is not None else None
-                absent = rr is not None and ((rr[0] == "agg" and rr[1].get("variant") == "None") or (rr[0] == "call" and rr[1] is not None and "from_residual" in rr[1].get("path", "")))
-                if not absent and not p_.truncated:
-                    early.append(show_expr(rr)[:70] if rr is not None else "?")
-    ctx.check(not early, "K5.early-exit", "the walk is left before the segments are exhausted only with 'absent' (%s)" % cfg, "the loop over the segments is left early with %s: the remaining segments are never resolved" % early[:2], where=w.where(), fn=w.key, nontrivial=True)
-    # results
+                r2 = switch_edges_for_variant(w, sb_, "Some")
+                if r2:
+                    some_t = r2[0]
+    if some_t is None:
+        return False
+    CUR = ("cur",)
+    is_seg = lambda z: z[0] == "call" and z[1] is not None and len(z) > 3 and z[3] == nbi[0] and z[1]["path"].endswith("::next")
+    pw = pathsum.Walker(w, start=some_t, env={cur: CUR}, max_paths=2000)
+    if pw.overflow:
+        ctx.unread("K5.step", "path step (%s)" % cfg, "one iteration of the walk has too many paths to summarise", where=w.where(), fn=w.key)
+        return True
+    absent = lambda rr: rr is not None and ((rr[0] == "agg" and rr[1].get("variant") == "None") or (rr[0] == "call" and rr[1] is not None and "from_residual" in rr[1].get("path", "")))
+    early, steps, stepfn = [], [], None
+    for p_ in pw.paths:
+        if h in p_.blocks:
+            steps.append(p_.env.get(cur, CUR))
+        elif p_.result is not None:
+            for c2, rv in (optnorm.cases_expr(facts, p_.result) or [((), p_.result)]):
+                if not absent(strip_refs(rv)):
+                    early.append(show_expr(strip_refs(rv))[:70])
+    ctx.check(not early, "K5.early-exit", "the walk is left before the segments are exhausted only with 'absent' (%s)" % cfg, "the loop over the segments is left early with %s: the segments that remain are never resolved" % sorted(set(early))[:2], where=w.where(), fn=w.key, nontrivial=True)
+    # what the walker answers
     r = strip_refs(w.trace(0))
     cands = [strip_refs(x) for x in r[2]] if r[0] == "phi" else [r]
     kinds, badk = set(), []
-    hk = helper.key if helper is not None else None
     for c in cands:
-        if (c[0] == "agg" and c[1].get("variant") == "None") or (c[0] == "call" and c[1] and "from_residual" in c[1]["path"]):
+        if absent(c):
             kinds.add("None")
         elif c[0] == "agg" and c[1].get("variant") == "Some":
             v = strip_refs(c[2][0])
-            if v[0] == "call" and v[1]["path"] == CLONE and strip_refs(v[2][0]) == DATA:
+            if v[0] == "call" and v[1] and v[1]["path"] == CLONE and strip_refs(v[2][0]) == DATA:
                 kinds.add("Some(data)")
-            elif expr_mentions(v, lambda y: y[0] == "phi" and y[1] == cur) and not expr_mentions(v, lambda y: y == DATA and False) and not expr_mentions(v, lambda y: y[0] == "call" and y[1] is not None and (MAP_GET.search(y[1]["path"]) is not None or y[1].get("key") == hk)):
+            elif expr_mentions(v, lambda y: y[0] == "phi" and y[1] == cur) and not _mentions_outside(v, lambda y: y[0] == "call" and y[1] is not None and (MAP_GET.search(y[1]["path"]) is not None or y[1].get("key") in hks), lambda y: y[0] == "phi" and y[1] == cur):
                 kinds.add("Some(current)")
                 # a conversion of the final value: read it, every case must hand on (part of) what the walk ended on
                 if v[0] == "call" and v[1].get("local") and not _is_ctor(v[1]):
@@ -578,19 +704,37 @@ def walker_loop_step(ctx, facts, roles, w, helper, cfg):
                         for _, fv in cc:
                             if not expr_mentions(fv, lambda y: y[0] == "arg"):
                                 badk.append("%s turns the walk's final value into %s" % (v[1]["key"].split("::", 1)[1], show_expr(fv)[:50]))
+            elif early and any(show_expr(v)[:40] in e_ for e_ in early):
+                pass        # an early exit, reported above
             else:
                 badk.append(show_expr(v)[:60])
+        elif early:
+            pass
         else:
             badk.append(show_expr(c)[:60])
-    ctx.check(not badk and kinds == {"None", "Some(data)", "Some(current)"}, "K5.walk-is-the-result", "the walker returns the entire data (empty key), None (scalar data / absent step) or the value the loop over the segments ends on (%s)" % cfg,
+    ctx.check(not badk and (kinds == {"None", "Some(data)", "Some(current)"} or (early and "Some(current)" in kinds)), "K5.walk-is-the-result", "the walker returns the entire data (empty key), None (scalar data / absent step) or the value the loop over the segments ends on (%s)" % cfg,
               "the walker's results are %s %s — a lookup that failed along the path must stay absent, nothing is looked up after the walk" % (sorted(kinds), badk[:2]), where=w.where(), fn=w.key, nontrivial=True)
     ctx.ok("K5.split", "segments come from the escape-aware splitter (%s)" % cfg)
     split_transducer(ctx, facts, w, it, cfg)
-    sb = facts.body(call[1]["key"])
-    if sb is None:
-        ctx.unread("K5.step", "path step (%s)" % cfg, "the step function %s has no body to read" % call[1]["key"], where=w.where(), fn=w.key)
-    else:
-        step_table(ctx, facts, sb, ("arg", curp), ("arg", segp), helper, cfg)
+    # the step: a function of (current, segment) called per iteration, or the iteration's own code
+    if len(inside) == 1:
+        ex = strip_refs(w._trace_def(inside[0], 0, frozenset([cur])))
+        src = payload_source(ex)
+        if src is not ex and src[0] == "call" and src[1] and src[1].get("local") and not _is_ctor(src[1]) and src[1]["key"] not in hks and len(src[2]) == 2:
+            curp = [i for i, a in enumerate(src[2]) if expr_mentions(a, lambda y: y == ("cycle", cur) or (y[0] == "phi" and y[1] == cur))]
+            segp = [i for i, a in enumerate(src[2]) if expr_mentions(a, is_seg)]
+            if len(curp) == 1 and len(segp) == 1 and curp != segp and facts.body(src[1]["key"]) is not None:
+                step_table(ctx, facts, facts.body(src[1]["key"]), ("arg", curp[0] + 1), ("arg", segp[0] + 1), helpers, cfg)
+                return True
+    j = StepJudge(facts, lambda z: z == CUR, is_seg, helpers)
+    for sv in steps:
+        sv = optnorm.normalise(strip_refs(sv))
+        # `cur = next?` / `if let Some(v) = next { cur = v }`: the new value is the payload of an Option-valued
+        # expression; its cases (combinators and their closures expanded) are the step's cases
+        src = sv[2] if sv[0] == "payload" else sv
+        for c2, v2 in (optnorm.cases_expr(facts, src) or [((), src)]):
+            j.case(optnorm.normalise(strip_refs(v2)))
+    j.finish(ctx, w, cfg)
     return True
 
 
@@ -653,7 +797,7 @@ def index_site(ctx, s, seqp, cfg):
 
 
 ABS = re.compile(r"<impl i64>::(unsigned_abs|abs|wrapping_abs)$")
-NUM_PASS = re.compile(r"TryInto<.*>>::try_into$|TryFrom<.*>>::try_from$|Into<.*>>::into$|From<.*>>::from$|::unwrap$|::expect$|::unwrap_or_default$")
+NUM_PASS = re.compile(r"TryInto<.*>>::try_into$|TryFrom<.*>>::try_from$|Into<.*>>::into$|From<.*>>::from$|::unwrap$|::expect$|::unwrap_or_default$|::unwrap_or$|::unwrap_or_else$")
 SEQ_LEN = re.compile(r"^core::slice::<impl \[T\]>::len$|^std::vec::Vec::<T, A>::len$|ExactSizeIterator(>)?::len$|^std::iter::Iterator::count$")
 SLICE_GET = re.compile(r"^core::slice::<impl \[T\]>::get$|^std::vec::Vec::<T, A>::get$|Index<I>>::index$|Index<I> for \[T\]>::index$")
 
@@ -737,6 +881,8 @@ def helper_table(ctx, facts, helper, seqp, idxp, cfg):
             if m is None:
                 return None
             kind, a, b_ = m
+            if kind == "clamped" and is_len(a) and expr_mentions(b_, lambda y: y == IDX):
+                return "a negative index reaching before the first element is clamped (%s) instead of being absent" % show_expr(strip_refs(e))[:60]
             if not is_abs(b_):
                 return None
             if not is_len(a):
@@ -766,7 +912,7 @@ def helper_table(ctx, facts, helper, seqp, idxp, cfg):
                 return "from the back it reads at |idx| (0-based): index -1 would be the last but one"
             return None
         return None
-    for conds, v, pth in hc:
+    def judge(conds, v, depth=0):
         sign = None
         for k, val in conds.items():
             if k[0] == "cmp" and k[1] == "Lt" and k[2] == A and k[3] == "c:0":
@@ -781,8 +927,14 @@ def helper_table(ctx, facts, helper, seqp, idxp, cfg):
                 sign = "wrong:is_positive"
         v = strip_refs(v)
         if (v[0] == "call" and v[1] and "from_residual" in v[1]["path"]) or (v[0] == "agg" and v[1].get("variant") == "None"):
-            continue
+            return
         pos = position(v)
+        if pos is None and depth == 0:
+            sub = read_through_calls(facts, conds, v)
+            if len(sub) > 1 or (sub and sub[0][1] is not v):
+                for c2, v2 in sub:
+                    judge(c2, v2, 1)
+                return
         if pos is None:
             unread.append("under %s the helper answers %s" % (sign, show_expr(v)[:90]))
         elif pos not in ("front", "back"):
@@ -795,6 +947,8 @@ def helper_table(ctx, facts, helper, seqp, idxp, cfg):
             forms.add(sign)
         else:
             bad.append("under %s the sequence is read from the %s" % (sign, pos))
+    for conds, v, pth in hc:
+        judge(conds, v)
     if bad:
         ctx.fail("K2.helper-branches", hkey, "; ".join(bad[:3]), where=helper.where(), fn=helper.key)
     elif unread:
@@ -904,94 +1058,3 @@ def split_transducer(ctx, facts, w, it, cfg):
     ctx.count("splitter iteration paths (%s)" % cfg, len(tr.paths))
     ctx.floor("splitter iteration paths (%s)" % cfg, len(tr.paths), 4)
     ctx.check(any(e[1] is not None and e[1][0] == "moved" or (e[1] is not None and e[1][0] in ("clone", "taken")) for e in tr.tail_emits), "K6.last-segment", "the pending segment is emitted after the loop (%s)" % cfg, "no emission of the pending segment after the loop", where=sb.where(), fn=sb.key)
-
-
-def walker_loop_form(ctx, facts, roles, w, helper, cfg):
-    """The dotted-path walk written as a loop: `let mut cur = data.clone(); for seg in split(key) { cur = step(cur, seg)?; } Some(cur)`.
-    Returns True when the shape was recognised and judged."""
-    from . import panic as PN
-    items = facts.items
-    loops = PN.loops_of(w)
-    if len(loops) != 1:
-        return False
-    h, bl, srcs = loops[0]
-    nbi = [bi for bi in sorted(bl) if w.blocks[bi]["term"]["k"] == "Call" and (callee_path(w.blocks[bi]["term"]) or "").endswith("::next")]
-    if len(nbi) != 1:
-        return False
-    it = w.trace(w.blocks[nbi[0]]["term"]["args"][0])
-    found = []
-    expr_mentions(it, lambda x: found.append(x) or False if (x[0] == "call" and x[1] and x[1]["local"] and items.get(x[1]["key"], {}).get("output") == "std::vec::Vec<std::string::String>") else False)
-    if not found:
-        return False
-    # the current value: the Value-typed local switched on inside the loop that is defined both before and inside it
-    cur = None
-    for sb in sorted(bl):
-        tt = w.blocks[sb]["term"]
-        if tt["k"] == "SwitchInt":
-            e = w.trace(tt["discr"])
-            if e[0] == "discr" and e[2] == VALUE:
-                x = strip_refs(e[1])
-                if x[0] == "phi":
-                    cur = x[1]
-    if cur is None:
-        return False
-    defs = w.defs().get(cur, [])
-    seeds = [d for d in defs if d[1] not in bl]
-    steps = [d for d in defs if d[1] in bl]
-    seed_ok = len(seeds) == 1 and strip_refs(w._trace_def(seeds[0], 0, frozenset()))[0] == "call" and strip_refs(w._trace_def(seeds[0], 0, frozenset()))[1]["path"] == CLONE and strip_refs(strip_refs(w._trace_def(seeds[0], 0, frozenset()))[2][0]) == ("arg", 1)
-    ctx.check(seed_ok, "K5.seed", "the walk starts at the entire data (%s)" % cfg, "the walk's current value starts as %s" % [show_expr(w._trace_def(d, 0, frozenset()))[:60] for d in seeds], where=w.where(), fn=w.key)
-    # inside the loop the current value is only replaced by the payload of the step's Option (`cur = next?`)
-    step_ok = bool(steps)
-    for d in steps:
-        ex = strip_refs(w._trace_def(d, 0, frozenset()))
-        step_ok = step_ok and ex[0] == "field" and ex[1][0] == "downcast" and ex[1][2] in ("Some", "Continue")
-    # results: Some(data) [empty key], None [scalar / absent step via `?`], Some(cur) after the loop
-    r = strip_refs(w.trace(0))
-    cands = [strip_refs(x) for x in r[2]] if r[0] == "phi" else [r]
-    kinds = []
-    for c in cands:
-        if c[0] == "agg" and c[1].get("variant") == "None":
-            kinds.append("None")
-        elif c[0] == "call" and c[1] and "from_residual" in c[1]["path"]:
-            kinds.append("None")
-        elif c[0] == "agg" and c[1].get("variant") == "Some":
-            v = strip_refs(c[2][0])
-            if v[0] == "call" and v[1]["path"] == CLONE and strip_refs(v[2][0]) == ("arg", 1):
-                kinds.append("Some(data)")
-            elif v[0] == "phi" and v[1] == cur:
-                kinds.append("Some(current)")
-            else:
-                kinds.append("other:" + show_expr(v)[:50])
-        else:
-            kinds.append("other:" + show_expr(c)[:50])
-    ctx.check(step_ok and set(kinds) == {"None", "Some(data)", "Some(current)"}, "K5.walk-is-the-result", "the walker returns the entire data (empty key), None (scalar data / absent step) or the value the loop over the segments ends on (%s)" % cfg,
-              "the walker's results are %s (current value replaced only by the step's payload: %s) — a lookup that failed along the path must stay absent" % (sorted(set(kinds)), step_ok), where=w.where(), fn=w.key, nontrivial=True)
-    ctx.ok("K5.split", "segments come from the escape-aware splitter (%s)" % cfg)
-    split_transducer(ctx, facts, w, it, cfg)
-    step_matrix(ctx, facts, roles, w, helper, cfg, is_cur=lambda e: strip_refs(e)[0] == "phi" and strip_refs(e)[1] == cur)
-    return True
-
-
-def step_matrix(ctx, facts, roles, cb, helper, cfg, is_cur=None):
-    """Per kind of the current value: which access the step performs."""
-    def _is_cur(e):
-        e = strip_refs(e)
-        return expr_mentions(e, lambda x: x[0] == "arg" and x[1] == 2) or expr_mentions(e, lambda x: x[0] == "call" and x[1] and "Try>::branch" in x[1]["path"])
-    is_cur = is_cur or _is_cur
-    for v in facts.variants(VALUE):
-        restrict = P.specialise_unit(roles, cb.key, lambda e, a, _v=v: _v if (a == VALUE and is_cur(e)) else None)
-        blocks = restrict[cb.key]
-        paths = []
-        for k, bl in restrict.items():
-            b = facts.body(k)
-            for bi in sorted(bl):
-                t = b.blocks[bi]["term"]
-                if t["k"] == "Call" and callee_of(t):
-                    paths.append((callee_of(t).get("key") if callee_of(t)["local"] else callee_of(t)["path"]))
-        has_get = any(p.startswith("serde_json::Map::<") and p.endswith("::get") for p in paths)
-        has_helper = helper.key in paths
-        has_parse = any(p == "core::str::<impl str>::parse" for p in paths)
-        has_chars = "core::str::<impl str>::chars" in paths
-        got = "MAPGET" if has_get and not has_helper else ("INDEX(chars)" if has_helper and has_chars and has_parse else ("INDEX" if has_helper and has_parse and not has_chars else ("NONE" if not has_get and not has_helper else "MIXED")))
-        want = {"Object": "MAPGET", "Array": "INDEX", "String": "INDEX(chars)"}.get(v, "NONE")
-        ctx.check(got == want, "K5.step", "path step on a %s (%s)" % (v, cfg), "a path step on a %s performs %s; expected %s" % (v, got, want), where=cb.where(), fn=cb.key, nontrivial=True, sample={"current": v, "access": got})
